@@ -51,6 +51,7 @@ class Ctl:
         self.done = False
         self.forced = False
         self.fire_returned = 0     # number of fire() calls that have returned (firing threads)
+        self.vis = 0               # visible actions emitted so far
 
 
 class Sched:
@@ -86,6 +87,7 @@ class Sched:
     def emit(self, lab):
         c = self.ctl.get(threading.get_ident())
         if c is not None and not self.free:
+            c.vis += 1
             self.trace.append([c.idx, lab])
 
     def release_all(self):
@@ -607,6 +609,7 @@ def _schedule(s, m, sch, case):
     sw = {int(a): int(b) for a, b in sch.get('sw', [])}
     stick = sch.get('stick', 0.7)
     tmo_left = int(case.get('tmo', 0))
+    segs = [[int(x[0]), int(x[1]), (x[2] if len(x) > 2 else ''), None, False] for x in sch.get('segs', [])]
     cur = order[0]
     while True:
         if s.nsteps >= MAX_STEPS:
@@ -638,7 +641,32 @@ def _schedule(s, m, sch, case):
                 return {'end': 'deadlock', 'blocked': [c.idx for c in live]}
         else:
             idxs = [c.idx for c in en]
-            if kind == 'rnd':
+            if kind == 'seg':
+                # segments [thread, n(, 'v')]: n >= 0 steps (or visible actions with 'v'); -1 = until it cannot
+                # move; -2 = until its fire() has returned
+                pick = None
+                while segs and pick is None:
+                    sg = segs[0]
+                    t, n = sg[0], sg[1]
+                    c = s.byidx.get(t)
+                    if c is not None and sg[3] is None:
+                        sg[3] = c.vis + n if sg[2] == 'v' else -1
+                    stop = (c is None or t not in idxs
+                            or (sg[2] == 'v' and c.vis >= sg[3])
+                            or (sg[2] != 'v' and n == 0)
+                            or (n == -2 and c.kind in ('ret', 'start') and sg[4]))
+                    if stop:
+                        segs.pop(0)
+                        continue
+                    if sg[2] != 'v' and n > 0:
+                        sg[1] = n - 1
+                    sg[4] = True
+                    pick = c
+                if pick is None:
+                    if cur not in idxs:
+                        cur = next(i for i in order if i in idxs)
+                    pick = s.byidx[cur]
+            elif kind == 'rnd':
                 if cur in idxs and rng.random() < stick:
                     pick = s.byidx[cur]
                 else:
@@ -700,7 +728,7 @@ class C03(Prop):
     id = 'C03'
     props_file = 'Props/C03.v'
     imports = ['Model.Wake', 'Model.WakeObs']
-    quick_n = 420
+    quick_n = 1000
     thorough_n = 6000
     rule = ('real Manager.run() thread + 1-3 real firing threads (1-3 events each) stepped line by line under a '
             'scheduler: fallback generator / Select / Poll / EPoll waiter, with and without a timer-like '
@@ -723,12 +751,42 @@ class C03(Prop):
     # ---- cases
     def generate(self, rng, n, tier):
         cases = []
-        for i in range(n):
+        cfgs = CONFIGS[:6]
+        # systematic coarse sweeps (one whole fire() placed after the loop's j-th visible action)
+        sweep = []
+        for mode, timer in cfgs:
+            for j in range(0, 52):        # start-up, first tick, first park
+                sweep.append({'mode': mode, 'timer': timer, 'threads': [2], 'tmo': 0, 'sched': {
+                    'kind': 'seg', 'order': [0, 1], 'segs': [[0, j, 'v'], [1, -2], [0, -1], [1, -1], [0, -1]]}})
+            for j in range(0, 64):        # the loop is processing the first wake-up
+                sweep.append({'mode': mode, 'timer': timer, 'threads': [2], 'tmo': 0, 'sched': {
+                    'kind': 'seg', 'order': [0, 1],
+                    'segs': [[0, -1], [1, -2], [0, j, 'v'], [1, -2], [0, -1], [1, -1], [0, -1]]}})
+        if tier == 'thorough':
+            for mode, timer in cfgs:      # a fire() split in two at each of its visible actions
+                for i in range(1, 14):
+                    for j in range(0, 64, 1):
+                        sweep.append({'mode': mode, 'timer': timer, 'threads': [2], 'tmo': 0, 'sched': {
+                            'kind': 'seg', 'order': [0, 1],
+                            'segs': [[0, -1], [1, -2], [0, j, 'v'], [1, i, 'v'], [0, -1], [1, -1], [0, -1]]}})
+        cases += sweep
+        for i in range(max(0, n - len(sweep)) if tier == 'quick' else n):
             mode, timer = CONFIGS[i % len(CONFIGS)]
             threads = list(rng.choice(THREADS if tier == 'thorough' else THREADS[:5]))
             nt = len(threads) + 1
             r = rng.random()
-            if r < 0.55:
+            if r < 0.45:
+                # windows: the loop is somewhere inside a tick when (part of) a fire() runs
+                second = 1 if threads[0] >= 2 or nt == 2 else 2
+                b = rng.choice([[-2], [rng.randint(1, 13), 'v'], [rng.randint(1, 30)]])
+                c = rng.choice([[-1], [-1], [rng.randint(0, 20), 'v']])
+                if rng.random() < 0.7:
+                    segs = [[0, -1], [1, -2], [0, rng.randint(0, 64), 'v'], [second] + b, [0] + c, [second, -1],
+                            [0, -1]]
+                else:
+                    segs = [[0, rng.randint(0, 52), 'v'], [1] + b, [0] + c, [1, -1], [0, -1]]
+                sch = {'kind': 'seg', 'segs': segs, 'order': list(range(nt))}
+            elif r < 0.7:
                 order = list(range(nt))
                 rng.shuffle(order)
                 k = rng.choice([0, 1, 1, 2, 2, 3])
@@ -739,6 +797,9 @@ class C03(Prop):
             cases.append({'mode': mode, 'timer': timer, 'threads': threads, 'sched': sch,
                           'tmo': rng.choice([0, 0, 1, 2])})
         return cases
+
+    def search(self, rng, tier):
+        return self.generate(rng, 900 if tier == 'quick' else 6000, 'thorough')
 
     # ---- implementation
     def impl(self, case):
